@@ -275,25 +275,34 @@ def c09(env, thorough):
 
 def _c09_history(env, hname, setup, auxfiles, steps, initial, inject=None):
     base = os.path.join(env.work, 'c09', 'store')
-    build_tree(env, base, setup, {})
-    for fn, data in auxfiles.items():
-        append_aux(base, fn, data)
-    snap0 = user_files(read_tree(base))
-    fs = FS(base)
-    run = engine.run_driver(env.drv, env.work, {'base': base, 'snap': True, 'steps': steps}, tag='c09', inject=inject)
-    if inject:
-        # one injected failure: the run counts only if the fault landed inside the (single) operation
-        inj = [c for c in run.calls if c.injected]
-        mk2, tid2 = engine.marks(run.calls)
-        bi = [i for i, t in mk2 if t == 'B:0']
-        ei = [i for i, t in mk2 if t.startswith('E:0')]
-        if not (len(inj) == 1 and run.report is not None and bi and ei and bi[0] < run.calls.index(inj[0]) < ei[0] and inj[0].tid == tid2):
-            return 'not-landed'
-        if any(not r['ok'] for r in run.report):
-            return 'reported-failure'   # nothing was acknowledged: durability has nothing to say (C15 judges failures)
-    elif run.report is None or any(not r['ok'] for r in run.report):
-        raise TraceError('C09 history %s failed on the unchanged path: %s' % (hname, [(r['i'], r.get('err')) for r in (run.report or []) if not r['ok']]))
-    points, stats, acked = engine.replay(base, fs, run)
+    for delayed in (False, True):
+        build_tree(env, base, setup, {})
+        for fn, data in auxfiles.items():
+            append_aux(base, fn, data)
+        snap0 = user_files(read_tree(base))
+        fs = FS(base)
+        # (second round only) the code under test left file-system work to another thread: every fsync
+        # is held for 0.3 s on entry, which tells an operation that waits for its helper (the
+        # acknowledgement is delayed as well) from one that does not (the flush completes after it)
+        inj = inject if not delayed else 'fsync:delay_enter=300000'
+        run = engine.run_driver(env.drv, env.work, {'base': base, 'snap': True, 'steps': steps}, tag='c09', inject=inj)
+        if inject:
+            # one injected failure: the run counts only if the fault landed inside the (single) operation
+            injc = [c for c in run.calls if c.injected]
+            mk2, tid2 = engine.marks(run.calls)
+            bi = [i for i, t in mk2 if t == 'B:0']
+            ei = [i for i, t in mk2 if t.startswith('E:0')]
+            if not (len(injc) == 1 and run.report is not None and bi and ei and bi[0] < run.calls.index(injc[0]) < ei[0] and injc[0].tid == tid2):
+                return 'not-landed'
+            if any(not r['ok'] for r in run.report):
+                return 'reported-failure'   # nothing was acknowledged: durability has nothing to say (C15 judges failures)
+        elif run.report is None or any(not r['ok'] for r in run.report):
+            raise TraceError('C09 history %s failed on the unchanged path: %s' % (hname, [(r['i'], r.get('err')) for r in (run.report or []) if not r['ok']]))
+        points, stats, acked = engine.replay(base, fs, run)
+        if stats['foreign'] and not delayed and not inject:
+            env.notes.append('history %s: %d file-system calls on the store came from another thread of the process; history repeated with delayed fsync' % (hname, stats['foreign']))
+            continue
+        break
     env.cov['traces_validated_against_impl'] += stats['validated']
     if stats['capped']:
         env.exhaustive = False
